@@ -35,16 +35,16 @@ pub struct Out {
 }
 
 impl Out {
-    fn count(&mut self, k: &str) {
+    pub(crate) fn count(&mut self, k: &str) {
         self.ev.push(Event::Count(k.to_string(), 1));
     }
     fn count_n(&mut self, k: &str, n: u64) {
         self.ev.push(Event::Count(k.to_string(), n));
     }
-    fn case(&mut self, kind: &str, _nontrivial: bool, line: &str, answer: &str) {
+    pub(crate) fn case(&mut self, kind: &str, _nontrivial: bool, line: &str, answer: &str) {
         self.ev.push(Event::Case(kind.to_string(), line.to_string(), answer.to_string()));
     }
-    fn oracle_fail(&mut self, key: &str, what: &str, detail: serde_json::Value) {
+    pub(crate) fn oracle_fail(&mut self, key: &str, what: &str, detail: serde_json::Value) {
         self.ev.push(Event::Fail(key.to_string(), what.to_string(), detail));
     }
 }
@@ -637,6 +637,51 @@ fn tamper<S: Suite>(ctx: &mut Out, mut rng: rand_chacha::ChaCha8Rng, class: &str
     }
 }
 
+/// Forged-result search on the foreign chips (hook `ecc::foreign::verif_hooks`): the prover
+/// replaces the point witnessed by the LAST `assign_point_unchecked` of the circuit (the result
+/// `r` of `add` / `double`) by another group element (a curve point, or the flagged identity) and
+/// the public inputs claim that element as the result. Every value the chip derives from `r`
+/// (quotients and carries of the EC gates, equality bits) follows the forged value, only the
+/// slopes keep their honest values. Must be rejected for every operand class.
+fn forge_result<S: Suite>(ctx: &mut Out, class: &str, spec: &Spec) {
+    use midnight_circuits::ecc::foreign::verif_hooks as point_hooks;
+    let mut spec = spec.clone();
+    spec.bind_pi = true;
+    let honest_inst = S::honest_instance(&spec);
+    let (r0, k) = run_k::<S>(&spec, no_faults, Some(honest_inst.clone()));
+    spec.k = k;
+    if r0.verdict != Ok(true) {
+        return;
+    }
+    point_hooks::set_point_plan(vec![]);
+    let _ = S::run(&spec, vec![], Some(honest_inst));
+    let calls = point_hooks::take_point_plan();
+    if calls == 0 {
+        return;
+    }
+    let key = format!("{}:{}:{}", S::NAME, spec.op.name(), class);
+    ctx.count(&format!("forge:case:{}:{}", S::NAME, spec.op.name()));
+    for x in [b(0xC06C06), b(0)] {
+        let pt = S::input_pt(&x);
+        if same_point(Some(&pt), &r0.expected, true) {
+            continue;
+        }
+        point_hooks::set_point_plan(vec![(calls - 1, pt.x.clone(), pt.y.clone(), pt.id.unwrap_or(false))]);
+        let r = S::run(&spec, vec![], Some(S::instance_with_result(&spec, &x)));
+        let _ = point_hooks::take_point_plan();
+        ctx.count("forge:tried");
+        if r.verdict == Ok(true) {
+            ctx.oracle_fail(
+                &format!("forged-result-accepted:{key}"),
+                "the circuit accepts a prover-chosen result point different from the group operation (public inputs bound to the forged point)",
+                json!({"request": op_line::<S>(&spec).chars().take(1500).collect::<String>(), "forged_result": render_pt(&pt), "expected": render_pt(&r0.expected)}),
+            );
+        } else {
+            ctx.count("forge:rejected");
+        }
+    }
+}
+
 fn fault_const(v: F) -> Fault<F> {
     Box::new(move |_| v)
 }
@@ -704,6 +749,15 @@ impl Jobs {
             o
         }));
     }
+    fn forge<S: Suite + 'static>(&mut self, class: &str, sp: Spec) {
+        let class = class.to_string();
+        self.v.push(Box::new(move || {
+            let mut out = Out::default();
+            forge_result::<S>(&mut out, &class, &sp);
+            out
+        }));
+    }
+
     fn tamper<S: Suite + 'static>(&mut self, ctx: &Ctx, class: &str, sp: Spec, targets: usize, kinds: Vec<usize>) {
         let class = class.to_string();
         let rng = ctx.rng(&format!("tamper:{}:{}:{}", S::NAME, sp.op.name(), class));
@@ -937,6 +991,25 @@ fn tamper_jobs(ctx: &Ctx, jobs: &mut Jobs, jub_bud: &Budget, for_bud: &Budget) {
     }
     foreign::<circ::secp::S>(ctx, jobs, for_bud, &r, &q);
     foreign::<circ::bls::S>(ctx, jobs, for_bud, &r, &q);
+    // forged result points on every exceptional operand class of `add` / `double`
+    fn forge<S: Suite + 'static>(jobs: &mut Jobs, r: &BigUint, q: &BigUint) {
+        let order = S::order();
+        let z = b(0);
+        for (class, p1, p2) in [
+            ("rand+rand'", r.clone(), q.clone()),
+            ("P=Q", r.clone(), r.clone()),
+            ("P=-Q", r.clone(), &order - r),
+            ("id+rand", z.clone(), r.clone()),
+            ("rand+id", r.clone(), z.clone()),
+            ("id+id", z.clone(), z.clone()),
+        ] {
+            jobs.forge::<S>(class, spec(Op::Add, vec![(p1, false), (p2, false)], vec![], 12));
+        }
+        jobs.forge::<S>("rand", spec(Op::Double, vec![(r.clone(), false)], vec![], 12));
+        jobs.forge::<S>("id", spec(Op::Double, vec![(z.clone(), false)], vec![], 12));
+    }
+    forge::<circ::secp::S>(jobs, &r, &q);
+    forge::<circ::bls::S>(jobs, &r, &q);
 }
 
 pub fn run(ctx: &mut Ctx) {
@@ -971,6 +1044,31 @@ pub fn run(ctx: &mut Ctx) {
         }
         jobs.case::<circ::bls::S>(class, spec(Op::SubgroupCheck, vec![(d, false)], vec![], 16));
     }
+    // BLS12-381 G1: curve points outside the prime-order subgroup (order 3 and 11) through
+    // mul_by_constant -> mul_by_u128: honest and forged runs (recorded finding)
+    {
+        let mut low: Vec<(u32, u64, Option<u64>)> = vec![(3, 2, None), (3, 5, Some(1)), (11, 21, Some(5))];
+        if !quick {
+            low.extend([(3, 3, None), (3, 4, None), (3, 17, Some(1)), (11, 2, None), (11, 11, None), (11, 37, Some(5))]);
+        }
+        for (ord, n, fk) in low {
+            jobs.v.push(Box::new(move || crate::loworder::case(ord, n, fk)));
+        }
+    }
+    // native point_from_coordinates on FREE coordinate cells: both must be bound (seed C06-1)
+    {
+        let mut rng = ctx.rng("coords-free");
+        let mut cl: Vec<(&str, BigUint)> = vec![("G", b(1)), ("rand", rand_big(&mut rng, &circ::jub::S::order()))];
+        if !quick {
+            cl.push(("id", b(0)));
+            cl.push(("r-1", circ::jub::S::order() - 1u8));
+            cl.push(("rand'", rand_big(&mut rng, &circ::jub::S::order())));
+        }
+        for (class, d) in cl {
+            let class = class.to_string();
+            jobs.v.push(Box::new(move || crate::coordsbind::case(&class, d)));
+        }
+    }
     tamper_jobs(ctx, &mut jobs, &jub_bud, &for_bud);
     let threads = std::env::var("H_C06_THREADS").ok().and_then(|s| s.parse().ok()).unwrap_or(8);
     ctx.count_n("jobs", jobs.v.len() as u64);
@@ -979,6 +1077,34 @@ pub fn run(ctx: &mut Ctx) {
 
 pub fn probe(args: &[String]) {
     let which = args.first().map(|s| s.as_str()).unwrap_or("all");
+    if which == "coordsbind" {
+        for (c, d) in [("G", b(1)), ("id", b(0)), ("x", b(0x1234567))] {
+            let out = crate::coordsbind::case(c, d);
+            for e in out.ev {
+                match e {
+                    Event::Count(k, _) => println!("count {k}"),
+                    Event::Case(kind, line, ans) => println!("case {kind} {line} -> {ans}"),
+                    Event::Fail(k, w, d) => println!("ORACLE_FAIL {k}: {w} {d}"),
+                }
+            }
+        }
+        return;
+    }
+    if which == "loworder" {
+        for (o, n, k) in [(3u32, 2u64, None), (3, 5, Some(1u64)), (3, 3, None), (11, 21, Some(5))] {
+            let t = std::time::Instant::now();
+            let out = crate::loworder::case(o, n, k);
+            for e in out.ev {
+                match e {
+                    Event::Count(k, _) => println!("count {k}"),
+                    Event::Case(kind, line, ans) => println!("case {kind}\n  {line}\n  -> {ans}"),
+                    Event::Fail(k, w, d) => println!("ORACLE_FAIL {k}: {w}\n  {d}"),
+                }
+            }
+            println!("({:?})", t.elapsed());
+        }
+        return;
+    }
     if which == "all" || which == "jub" {
         let sp = spec(Op::Add, vec![(b(5), false), (b(7), false)], vec![], 10);
         let r = circ::jub::run(&sp, vec![], None);
